@@ -6,7 +6,7 @@ cd /verif
 python3 harness/integrate.py $ID
 BR=$(git -C /tmp/w/$ID/repo rev-parse --abbrev-ref HEAD)
 echo "--- fix commits on $BR:"
-for c in $(git -C /repo log main..$BR --format=%H --reverse); do
+for c in $(git -C /repo cherry main $BR | grep '^+' | cut -d' ' -f2); do
   git -C /repo log -1 --format='%h %s' $c
   git -C /repo cherry-pick $c >/dev/null || { echo "CHERRY-PICK CONFLICT $c"; exit 1; }
   NEW=$(git -C /repo log -1 --format=%h)
